@@ -434,6 +434,9 @@ func ruleC13PerQueryState(c *Ctx) {
 						if a, ok := v.(*ssa.Alloc); ok && isNamedType(a.Type(), modPath, "Query") {
 							bad = fmt.Sprintf("global %s may hold a *Query allocated at %s", g.Name(), c.P.Pos(a.Pos()))
 						}
+						if a, ok := v.(*ssa.Alloc); ok && isNamedType(a.Type(), modPath, "Options") {
+							bad = fmt.Sprintf("global %s may hold an *Options allocated at %s: every query that ends up with it shares its variables, handlers and locks with all the others", g.Name(), c.P.Pos(a.Pos()))
+						}
 					}
 				}
 			}
